@@ -548,7 +548,7 @@ class propagator_cpmc(propagator_unrestricted):
         overlaps_new = trial.calc_overlap(prop_data["walkers"], wave_data)
         prop_data["weights"] *= (overlaps_new / prop_data["overlaps"]).real
         prop_data["weights"] = jnp.where(
-            prop_data["weights"] < 1.0e-8, 0.0, prop_data["weights"]
+            prop_data["weights"] >= 1.0e-8, prop_data["weights"], 0.0
         )
         prop_data["overlaps"] = overlaps_new
         prop_data["greens"] = trial.calc_full_green_vmap(
@@ -644,7 +644,7 @@ class propagator_cpmc(propagator_unrestricted):
 
         prop_data["weights"] *= jnp.exp(self.dt * (prop_data["pop_control_ene_shift"]))
         prop_data["weights"] = jnp.where(
-            prop_data["weights"] > 100.0, 0.0, prop_data["weights"]
+            prop_data["weights"] <= 100.0, prop_data["weights"], 0.0
         )
         prop_data["pop_control_ene_shift"] = prop_data["e_estimate"] - 0.1 * jnp.array(
             jnp.log(jnp.sum(prop_data["weights"]) / self.n_walkers) / self.dt
@@ -687,7 +687,7 @@ class propagator_cpmc_slow(propagator_cpmc, propagator_unrestricted):
         overlaps_new = trial.calc_overlap(prop_data["walkers"], wave_data)
         prop_data["weights"] *= (overlaps_new / prop_data["overlaps"]).real
         prop_data["weights"] = jnp.where(
-            prop_data["weights"] < 1.0e-8, 0.0, prop_data["weights"]
+            prop_data["weights"] >= 1.0e-8, prop_data["weights"], 0.0
         )
         prop_data["overlaps"] = overlaps_new
 
@@ -753,13 +753,13 @@ class propagator_cpmc_slow(propagator_cpmc, propagator_unrestricted):
         overlaps_new = trial.calc_overlap(prop_data["walkers"], wave_data)
         prop_data["weights"] *= (overlaps_new / prop_data["overlaps"]).real
         prop_data["weights"] = jnp.array(
-            jnp.where(prop_data["weights"] < 1.0e-8, 0.0, prop_data["weights"])
+            jnp.where(prop_data["weights"] >= 1.0e-8, prop_data["weights"], 0.0)
         )
         prop_data["overlaps"] = overlaps_new
 
         prop_data["weights"] *= jnp.exp(self.dt * (prop_data["pop_control_ene_shift"]))
         prop_data["weights"] = jnp.where(
-            prop_data["weights"] > 100.0, 0.0, prop_data["weights"]
+            prop_data["weights"] <= 100.0, prop_data["weights"], 0.0
         )
         prop_data["pop_control_ene_shift"] = prop_data["e_estimate"] - 0.1 * jnp.array(
             jnp.log(jnp.sum(prop_data["weights"]) / self.n_walkers) / self.dt
@@ -1213,7 +1213,7 @@ class propagator_cpmc_nn(propagator_cpmc, propagator_unrestricted):
 
         prop_data["weights"] *= jnp.exp(self.dt * (prop_data["pop_control_ene_shift"]))
         prop_data["weights"] = jnp.where(
-            prop_data["weights"] > 100.0, 0.0, prop_data["weights"]
+            prop_data["weights"] <= 100.0, prop_data["weights"], 0.0
         )
         prop_data["pop_control_ene_shift"] = prop_data["e_estimate"] - 0.1 * jnp.array(
             jnp.log(jnp.sum(prop_data["weights"]) / self.n_walkers) / self.dt
@@ -1286,7 +1286,7 @@ class propagator_cpmc_nn_slow(propagator_unrestricted):
         overlaps_new = trial.calc_overlap(prop_data["walkers"], wave_data)
         prop_data["weights"] *= (overlaps_new / prop_data["overlaps"]).real
         prop_data["weights"] = jnp.where(
-            prop_data["weights"] < 1.0e-8, 0.0, prop_data["weights"]
+            prop_data["weights"] >= 1.0e-8, prop_data["weights"], 0.0
         )
         prop_data["overlaps"] = overlaps_new
 
@@ -1570,13 +1570,13 @@ class propagator_cpmc_nn_slow(propagator_unrestricted):
         overlaps_new = trial.calc_overlap(prop_data["walkers"], wave_data)
         prop_data["weights"] *= (overlaps_new / prop_data["overlaps"]).real
         prop_data["weights"] = jnp.array(
-            jnp.where(prop_data["weights"] < 1.0e-8, 0.0, prop_data["weights"])
+            jnp.where(prop_data["weights"] >= 1.0e-8, prop_data["weights"], 0.0)
         )
         prop_data["overlaps"] = overlaps_new
 
         prop_data["weights"] *= jnp.exp(self.dt * (prop_data["pop_control_ene_shift"]))
         prop_data["weights"] = jnp.where(
-            prop_data["weights"] > 100.0, 0.0, prop_data["weights"]
+            prop_data["weights"] <= 100.0, prop_data["weights"], 0.0
         )
         prop_data["pop_control_ene_shift"] = prop_data["e_estimate"] - 0.1 * jnp.array(
             jnp.log(jnp.sum(prop_data["weights"]) / self.n_walkers) / self.dt
@@ -1657,11 +1657,11 @@ class propagator_cpmc_continuous(propagator_unrestricted):
         )
         prop_data["weights"] *= imp_fun.real
         prop_data["weights"] = jnp.array(
-            jnp.where(prop_data["weights"] < 1.0e-8, 0.0, prop_data["weights"])
+            jnp.where(prop_data["weights"] >= 1.0e-8, prop_data["weights"], 0.0)
         )
         prop_data["overlaps"] = overlaps_new
         prop_data["weights"] = jnp.where(
-            prop_data["weights"] > 100.0, 0.0, prop_data["weights"]
+            prop_data["weights"] <= 100.0, prop_data["weights"], 0.0
         )
         # prop_data["weights"] = overlaps_new.real
         prop_data["pop_control_ene_shift"] = prop_data["e_estimate"] - 0.1 * jnp.array(
